@@ -92,9 +92,11 @@ type scriptSpec struct {
 	Segments     [][]item     // segment 0 is one gate; segment k>0 is sent while gate k-1 is held; all but the last end with a gate
 	Children     int          // children spawned by incarnation 1 in Started
 	WithSender   bool
-	CtxCancel    int    // 0: default spawn context; 1: WithContext(ctx) cancelled before Spawn; 2: cancelled right after Spawn
-	LateFor      int    // id of a crash item: as soon as it has been received a concurrent goroutine sends Late (0 = none)
-	Late         []item // msg items only; they must be delivered after everything buffered behind the crash, before the next segment
+	CtxCancel    int           // 0: default spawn context; 1: WithContext(ctx) cancelled before Spawn; 2: cancelled right after Spawn
+	ViaPeer      bool          // every third message (and the probe after the end) is sent by a peer actor with Context.Send and the one *PID value, as actors talk to each other
+	QuietGap     time.Duration // workload shaping only: after each segment's gate has been entered the driver lets this much failure-free time pass before it goes on (0 = none)
+	LateFor      int           // id of a crash item: as soon as it has been received a concurrent goroutine sends Late (0 = none)
+	Late         []item        // msg items only; they must be delivered after everything buffered behind the crash, before the next segment
 }
 
 func (s *scriptSpec) String() string {
@@ -108,6 +110,12 @@ func (s *scriptSpec) String() string {
 	}
 	if len(s.Early) > 0 {
 		fmt.Fprintf(&sb, " early=%v", s.Early)
+	}
+	if s.ViaPeer {
+		sb.WriteString(" viaPeer")
+	}
+	if s.QuietGap != 0 {
+		fmt.Fprintf(&sb, " quietGap=%v", s.QuietGap)
 	}
 	if s.LateFor != 0 {
 		fmt.Fprintf(&sb, " late(after crash%d)=%v", s.LateFor, s.Late)
@@ -768,14 +776,41 @@ func runScript(c *caseCtx, spec *scriptSpec) (out scriptOutcome) {
 		}
 	}
 	senderPID := actor.NewPID("local", "verif/sender")
+	// the peer: an actor that passes messages on with its own Context.Send. The driver waits until that Send
+	// has returned, so the order of the script's sends is the order of the driver's calls either way.
+	type relayReq struct {
+		pid  *actor.PID
+		m    *uMsg
+		done chan struct{}
+	}
+	var relayPID *actor.PID
+	if spec.ViaPeer {
+		relayPID = e.SpawnFunc(func(c *actor.Context) {
+			if rq, ok := c.Message().(relayReq); ok {
+				c.Send(rq.pid, rq.m)
+				close(rq.done)
+			}
+		}, "verif-peer", actor.WithID("p"))
+	}
+	viaPeer := func(id int) bool { return spec.ViaPeer && (id%3 == 0 || id == -7) }
+	relay := func(pid *actor.PID, m *uMsg) {
+		rq := relayReq{pid: pid, m: m, done: make(chan struct{})}
+		e.Send(relayPID, rq)
+		<-rq.done
+	}
 	send := func(pid *actor.PID, m *uMsg) {
-		if spec.WithSender && m.ID%2 == 0 {
+		if viaPeer(m.ID) {
+			relay(pid, m)
+		} else if spec.WithSender && m.ID%2 == 0 {
 			e.SendWithSender(pid, m, senderPID)
 		} else {
 			e.Send(pid, m)
 		}
 	}
 	expSender := func(id int) string {
+		if viaPeer(id) {
+			return pidStr(relayPID)
+		}
 		if spec.WithSender && id%2 == 0 {
 			return pidStr(senderPID)
 		}
@@ -896,6 +931,9 @@ func runScript(c *caseCtx, spec *scriptSpec) (out scriptOutcome) {
 			select {
 			case <-g.entered:
 				heldGate = g
+				if spec.QuietGap > 0 {
+					time.Sleep(spec.QuietGap) // a quiet stretch between failures: the restart count is a lifetime count
+				}
 			case <-time.After(wd / 2):
 				aborted = true
 				out.observed = rec.snapshot()
@@ -999,7 +1037,11 @@ func runScript(c *caseCtx, spec *scriptSpec) (out scriptOutcome) {
 		// a later send dead-letters, exactly once, and is not delivered
 		probe := &uMsg{Kind: itMsg, ID: -7}
 		before := len(rec.snapshot())
-		e.SendWithSender(pid, probe, senderPID)
+		if spec.ViaPeer {
+			relay(pid, probe) // the peer has sent to this very *PID while the actor was alive
+		} else {
+			e.SendWithSender(pid, probe, senderPID)
+		}
 		mon.flush(e, wd)
 		// give a zombie worker (if any) a chance to show itself; this adds detection power only
 		time.Sleep(2 * time.Millisecond)
@@ -1013,7 +1055,7 @@ func runScript(c *caseCtx, spec *scriptSpec) (out scriptOutcome) {
 		} else {
 			for _, x := range mon.snapshot() {
 				if ev, ok := x.(actor.DeadLetterEvent); ok && ev.Message == any(probe) {
-					if !ev.Target.Equals(pid) || pidStr(ev.Sender) != pidStr(senderPID) {
+					if !ev.Target.Equals(pid) || pidStr(ev.Sender) != expSender(-7) && !(expSender(-7) == "" && pidStr(ev.Sender) == pidStr(senderPID)) {
 						fail("DeadLetterEvent for the probe carries target %v sender %v", ev.Target, ev.Sender)
 					}
 				}
@@ -1046,7 +1088,11 @@ func runScript(c *caseCtx, spec *scriptSpec) (out scriptOutcome) {
 	} else {
 		// alive: a probe sent now is delivered
 		probe := &uMsg{Kind: itMsg, ID: -7}
-		e.Send(pid, probe)
+		if spec.ViaPeer {
+			relay(pid, probe)
+		} else {
+			e.Send(pid, probe)
+		}
 		if !waitFor(wd, func() bool { return rec.has("msg", -7) }) {
 			out.observed = rec.snapshot()
 			if d := diffLogs(model.log, out.observed, true); d != "" {
